@@ -21,6 +21,8 @@ SNIPPETS = [
     "program lower\nvar x : int; end_var\nif x = 1 then x := 2; elsif x = 2 then x := 3; end_if;\nend_program\n",
     # literals that contain the very characters the alignment and wrapping passes search for
     "PROGRAM Lit\nVAR w : WSTRING; s : STRING; n : INT; END_VAR\nLog(\"key=>value\");\nn           := 1;\nLog('k := v, w => x');\nw := \"a := b\";\nlongname_longname := 2;\ns := 'p, q, r, s, t, u, v, w, x, y, z, aa, bb, cc, dd, ee, ff, gg, hh, ii, jj, kk, ll, mm, nn, oo, pp, qq, rr, ss, tt, uu, vv';\nw := \"p, q, r, s, t, u, v, w, x, y, z, aa, bb, cc, dd, ee, ff, gg, hh, ii, jj, kk, ll, mm, nn, oo, pp, qq, rr, ss, tt, uu\";\nEND_PROGRAM\n",
+    # commented-out code and pragmas spanning lines, directly below assignments / declarations whose operator sits further right
+    "PROGRAM Cm\nVAR\n    counter : INT;\n    (* x : INT; old\n       y : DINT *)\n    x : INT;\nEND_VAR\n    counter := 1;\n    (* x:=2; disabled\n       f(a => 3) *)\n    x := 4;\n    longer_name := 5;\n    {attribute 'k := v'\n     'w => z'}\n    x := 6;\n    /* y:=7; off\n    */\nEND_PROGRAM\n",
     "PROGRAM Tm\nVAR\n  start : TOD := TOD#08:30:00;\n  d : DT := DT#2024-01-01-12:00:00;\n  span : TIME := T#1h2m;\n  a,\n  b : INT;\n  verylongvariablename : DINT := 5;\nEND_VAR\nstart := TOD#09:15:00;\nEND_PROGRAM\n",
 ]
 
@@ -53,7 +55,7 @@ def gen_text(rng, corp):
         elif k == 2: lines.insert(i, "")
         elif k == 3: lines[i] = lines[i] + "   // note  " + str(rng.below(9))
         elif k == 4: lines[i] = lines[i].replace(" ", "\t", 1)
-        elif k == 5: lines.insert(i, rng.pick(["x := 1;", "(* c *)", "{p}", "y:=f(a,b ,c);", "z := 'q  q';", "w := \"x := y, z => q\";", "Call(a := \"m=>n\", b := 'c,d');", "IF a THEN", "END_IF", "a := aaaaaaaaaaaaaaaaaaaaaaaa + bbbbbbbbbbbbbbbbbbbbbbbbbbbbb + ccccccccccccccccccccccccccc + dddddddddddddddddddddd;"]))
+        elif k == 5: lines.insert(i, rng.pick(["x := 1;", "(* c *)", "{p}", "y:=f(a,b ,c);", "z := 'q  q';", "w := \"x := y, z => q\";", "Call(a := \"m=>n\", b := 'c,d');", "IF a THEN", "END_IF", "    (* q:=1; off\n       r => 2 *)", "  {info 'm := n'\n   'o'}", "a := aaaaaaaaaaaaaaaaaaaaaaaa + bbbbbbbbbbbbbbbbbbbbbbbbbbbbb + ccccccccccccccccccccccccccc + dddddddddddddddddddddd;"]))
         elif k == 6 and len(lines) > 2: del lines[i]
         else: lines[i] = lines[i].lower() if rng.chance(1, 2) else lines[i].upper()
         t = "\n".join(lines)
@@ -193,7 +195,14 @@ def check(tier):
         cfg, opts = gen_config(rng)
         nl = text.count("\n") + 1
         a = rng.below(nl); b = min(nl - 1, a + rng.below(4))
-        cases.append({"id": "c%d" % k, "text": text, "config": cfg, "options": opts, "range": [a, 0, b, rng.pick([0, 0, 5, 200])], "line": rng.below(nl)})
+        line = rng.below(nl)
+        # lines on which a comment or pragma that continues on later lines starts: the line-oriented passes must leave them alone
+        tl = text.split("\n")
+        hot = [i for i, l in enumerate(tl) if ("(*" in l and "*)" not in l.split("(*")[-1]) or ("/*" in l and "*/" not in l.split("/*")[-1]) or ("{" in l and "}" not in l.split("{")[-1])]
+        if hot and rng.chance(1, 2):
+            line = rng.pick(hot)
+            if rng.chance(1, 2): a = line; b = min(nl - 1, a + rng.below(2))
+        cases.append({"id": "c%d" % k, "text": text, "config": cfg, "options": opts, "range": [a, 0, b, rng.pick([0, 0, 5, 200])], "line": line})
     reqs = []
     for c in cases:
         base = {"text": c["text"], "config": c["config"], "options": c["options"]}
